@@ -30,6 +30,7 @@ type Obligation struct {
 
 	guard, cond string
 	item        int
+	gen         *FnGen // the generator that owns it (for a second solving attempt)
 	extras      []string
 }
 
@@ -324,7 +325,7 @@ func (g *FnGen) oblige(kind, label, guard, cond, desc string, pos token.Pos) *Ob
 	r := g.root()
 	label = g.labelPrefix + label
 	ob := &Obligation{Name: r.name + "/" + kind + "/" + label, Kind: kind, Fn: r.name, Desc: desc,
-		guard: guard, cond: cond, Strong: strongKinds[kind], item: len(r.items)}
+		guard: guard, cond: cond, Strong: strongKinds[kind], item: len(r.items), gen: r}
 	if r.C != nil {
 		ob.Props = r.C.Props
 	}
